@@ -185,6 +185,18 @@ def c11():
             if an2.anonymize(s) != r:
                 fail("C11.keyed", {"salt": salt, "as_number": s}, "replacement depends on more than salt and number",
                      "_generate_as_number_replacement")
+    # many numbers of one small block (replacements collide): still a function of salt and number only
+    dense = [str(x) for x in RNG.sample(range(64512, 65536), 300 if TIER == "quick" else 1000)]
+    for salt in salts[:3]:
+        fwd, bwd = sir.AsNumberAnonymizer(list(dense), salt), sir.AsNumberAnonymizer(list(reversed(dense)), salt)
+        for n_ in dense[:120]:
+            note((salt, "dense", n_))
+            alone = sir.AsNumberAnonymizer([n_], salt).anonymize(n_)
+            if fwd.anonymize(n_) != alone or bwd.anonymize(n_) != alone:
+                fail("C11.keyed", {"salt": salt, "as_number": n_, "alone": alone, "in_list": fwd.anonymize(n_),
+                                   "in_reversed_list": bwd.anonymize(n_)},
+                     "replacement depends on which other numbers are listed", "_generate_as_number_replacement_map")
+                break
     # a listed number whose replacement is itself listed: every number is replaced once, by its own replacement
     for salt in salts[:4]:
         for n in ("64512", "65000", "70000", "4200000001", "100"):
@@ -295,7 +307,7 @@ CHECKS = {"C06": [c06], "C11": [c11], "C18": [c18]}
 BOUNDS = {
     "C06": "all strings of length <= 5 (quick) / 6 (thorough) over {1,2,5,.,:,/,a,space}; 35 address spellings x 12 delimiters "
            "x 3 positions; all single-character edits of the spellings; real two-pass substitution vs an independent token-level reference",
-    "C11": "block boundaries +-2 and 50/2000 random numbers x 8/50 salts; 4 salts x 5 numbers x both list orders with the replacement itself listed; ~10k generated lines (standalone / embedded / prefix-of-each-other numbers)",
+    "C11": "block boundaries +-2 and 50/2000 random numbers x 8/50 salts; 4 salts x 5 numbers x both list orders with the replacement itself listed; 300/1000 numbers of the 16-bit private block (colliding replacements) listed in both orders vs alone; ~10k generated lines (standalone / embedded / prefix-of-each-other numbers)",
     "C18": "truncated encryptions (9 lengths x 9/65 salts x 3 cuts) must be refused or decode structurally; 72 salts (65 alphabet characters, None, empty, non-alphabet) x all 256 single characters (+ pairs, 6/200 random long plaintexts); "
            "~300/5000 malformed strings",
 }
